@@ -151,8 +151,8 @@ fn eval(cmd: &Value) -> Value {
 
 pub fn main() -> i32 {
     let stdin = std::io::stdin();
-    let stdout = std::io::stdout();
-    let mut out = std::io::BufWriter::new(stdout.lock());
+    // results go to a file: the code under test prints log lines on stdout
+    let mut out = std::io::BufWriter::new(std::fs::File::create(super::env("VERIF_OUT")).expect("VERIF_OUT"));
     for line in stdin.lock().lines() {
         let line = line.unwrap();
         if line.trim().is_empty() {
